@@ -202,9 +202,30 @@ def main(argv=None):
         results = [_worker(x) for x in args]
     else:
         mp = multiprocessing.get_context("fork")
+        # hard cap: a task still running this long after the generation guard is abandoned (its
+        # partial results are lost, the run is reported as budget-hit/inconclusive for it) -- a check
+        # must never hang, e.g. on an exponential blow-up inside the code under test
+        grace = float(os.environ.get("VERIF_HARD_GRACE", str(max(90.0, 0.75 * budget))))
+        hard_deadline = deadline + grace
+        abandoned = []
         with mp.Pool(jobs, maxtasksperchild=1, initializer=_reset_signals) as pool:
-            for r in pool.imap_unordered(_worker, args, chunksize=1):
-                results.append(r)
+            pending = {i: pool.apply_async(_worker, (x,)) for i, x in enumerate(args)}
+            while pending:
+                for i in [i for i, ar in pending.items() if ar.ready()]:
+                    results.append(pending.pop(i).get())
+                if not pending:
+                    break
+                if time.time() > hard_deadline:
+                    abandoned = [args[i][6].get("task") for i in sorted(pending)]
+                    break
+                time.sleep(0.2)
+            pool.terminate()
+        if abandoned:
+            print(f"NOTE property={pid} abandoned {len(abandoned)} task(s) still running {grace:.0f}s after the "
+                  f"generation guard: {abandoned[:8]} (inconclusive for them)", file=sys.stderr)
+            results.append({"evaluations": 0, "keys": set(), "keys_capped": False, "classes": {}, "samples": [],
+                            "violations": {}, "notes": {"abandoned_tasks": len(abandoned)}, "counters": {},
+                            "budget_hit": True, "task": "__abandoned__", "wall": 0})
     errs = [r for r in results if "error" in r]
     if errs:
         for r in errs:
